@@ -521,4 +521,189 @@ theorem execMembers_failed_nb (env : Env) (txs : List Tx) (st : St) (rs : List R
       simp at this ⊢
       omega
 
+
+/-! ### local data: executors that do not run ExecLocal at execution time -/
+
+theorem runExecOps_ldb_disabled (ops : List Op) (st : St) (decl : List (Bytes × Val)) (obs : List Obs)
+    (hr : st.ldb.disableread = true) (hw : st.ldb.disablewrite = true) :
+    (runExecOps ops st decl obs).1.ldb = st.ldb := by
+  induction ops generalizing st decl obs with
+  | nil => rfl
+  | cons op ops ih =>
+    cases op <;> simp only [runExecOps]
+    case setS k v => exact ih _ _ _ hr hw
+    case hidS k v => exact ih _ _ _ hr hw
+    case declS k v => exact ih _ _ _ hr hw
+    case getS k => exact ih _ _ _ hr hw
+    case setL k v =>
+      have : (st.ldb.set k v).1 = st.ldb := by simp [LocalDB.set, hw]
+      rw [ih _ _ _ (by simpa [this] using hr) (by simpa [this] using hw)]; exact this
+    case hidL k v =>
+      have : (st.ldb.set k v).1 = st.ldb := by simp [LocalDB.set, hw]
+      rw [ih _ _ _ (by simpa [this] using hr) (by simpa [this] using hw)]; exact this
+    case declL k v => exact ih _ _ _ hr hw
+    case getL k =>
+      have : (st.ldb.get k).1 = st.ldb := by simp [LocalDB.get, hr]
+      rw [ih _ _ _ (by simpa [this] using hr) (by simpa [this] using hw)]; exact this
+    case listL p =>
+      have : (st.ldb.list p).1 = st.ldb := by simp [LocalDB.list, hr]
+      rw [ih _ _ _ (by simpa [this] using hr) (by simpa [this] using hw)]; exact this
+
+/-- with ForkLocalDBAccess, the Exec of a driver that is not ExecLocalSameTime cannot touch the LocalDB:
+the result only depends on the flags being toggled. -/
+theorem execPhase_ldb_ordinary (env : Env) (st : St) (tx : Tx) (d : Drv)
+    (hd : loadDriver env tx.execer = some d) (hs : d.sameTime = false) (hf : env.forkLocalDBAccess = true) :
+    (execPhase env st tx).1.ldb = { st.ldb with disablewrite := false, disableread := false } := by
+  unfold execPhase
+  have hsame : isExecLocalSameTime env tx.execer = false := by unfold isExecLocalSameTime; rw [hd]; exact hs
+  simp only [hd, hsame, hf, if_true, Bool.false_eq_true, if_false]
+  rw [runExecOps_ldb_disabled tx.execOps _ [] [] rfl rfl]
+
+
+theorem execTxOne_failed_state_ordinary (env : Env) (st : St) (feelog : Receipt) (tx : Tx) (r : Receipt)
+    (st' : St) (obs : List Obs) (hs : isExecLocalSameTime env tx.execer = false)
+    (h : execTxOne env st feelog tx = .failed r st' obs) : st' = (execPhase env st.startTx tx).1 := by
+  unfold execTxOne at h
+  rcases hr : execPhase env st.startTx tx with ⟨st1, ret, obs1⟩
+  rw [hr] at h
+  cases ret with
+  | err => simp only at h; injection h with _ h _; exact h.symm
+  | panic => simp only at h; injection h with _ h _; exact h.symm
+  | ok kv =>
+    simp only [hs, Bool.false_eq_true, if_false] at h
+    split at h
+    · injection h with _ h _; exact h.symm
+    · split at h
+      · injection h with _ h _; exact h.symm
+      · simp only [finishOk] at h; cases h
+
+
+/-! ### C12: what a successful `execTxOne` guarantees -/
+
+/-- keys a program writes through the StateDB in its Exec phase (up to the first F/P). -/
+def stateWrites : List Op → List Bytes
+  | [] => []
+  | .setS k _ :: r => k :: stateWrites r
+  | .hidS k _ :: r => k :: stateWrites r
+  | .fail :: _ => []
+  | .panic :: _ => []
+  | .declS _ _ :: r => stateWrites r
+  | .getS _ :: r => stateWrites r
+  | .setL _ _ :: r => stateWrites r
+  | .hidL _ _ :: r => stateWrites r
+  | .declL _ _ :: r => stateWrites r
+  | .getL _ :: r => stateWrites r
+  | .listL _ :: r => stateWrites r
+
+theorem set_keys_intx (s : StateDB) (k : Bytes) (v : Val) (h : s.intx = true) :
+    (s.set k v).keys = s.keys ++ [k] ∧ (s.set k v).intx = true := by
+  unfold StateDB.set; simp [h]
+
+theorem runExecOps_keys (ops : List Op) (st : St) (decl : List (Bytes × Val)) (obs : List Obs)
+    (h : st.sdb.intx = true) :
+    (runExecOps ops st decl obs).1.sdb.keys = st.sdb.keys ++ stateWrites ops := by
+  induction ops generalizing st decl obs with
+  | nil => simp [runExecOps, stateWrites]
+  | cons op ops ih =>
+    cases op <;> simp only [runExecOps, stateWrites]
+    case setS k v =>
+      rw [ih _ _ _ (set_keys_intx st.sdb k _ h).2, (set_keys_intx st.sdb k _ h).1]; simp
+    case hidS k v =>
+      rw [ih _ _ _ (set_keys_intx st.sdb k _ h).2, (set_keys_intx st.sdb k _ h).1]; simp
+    case declS k v => exact ih _ _ _ h
+    case getS k =>
+      rw [ih _ _ _ (by simpa [get_intx] using h)]; simp [get_keys]
+    case setL k v => exact ih _ _ _ h
+    case hidL k v => exact ih _ _ _ h
+    case declL k v => exact ih _ _ _ h
+    case getL k => exact ih _ _ _ h
+    case listL p => exact ih _ _ _ h
+    case fail => simp
+    case panic => simp
+
+/-- the receipt KVs the synthetic driver declares: exactly the S and D instructions it executed. -/
+theorem execPhase_keys (env : Env) (st : St) (tx : Tx) (d : Drv) (hd : loadDriver env tx.execer = some d)
+    (h : st.sdb.intx = true) : (execPhase env st tx).1.sdb.keys = st.sdb.keys ++ stateWrites tx.execOps := by
+  unfold execPhase
+  simp only [hd]
+  cases env.forkLocalDBAccess
+  · simpa using runExecOps_keys tx.execOps st [] [] h
+  · simp only [if_true]
+    exact runExecOps_keys tx.execOps _ [] [] h
+
+theorem execTxOne_ok_shape (env : Env) (st : St) (feelog : Receipt) (tx : Tx) (r : Receipt) (st' : St)
+    (obs : List Obs) (h : execTxOne env st feelog tx = .ok r st' obs) :
+    ∃ stE kv obsE, execPhase env st.startTx tx = (stE, .ok kv, obsE) ∧
+      C12.checkKV stE.sdb.keys (kv.map (·.1)) = true ∧
+      (∀ p ∈ kv, isAllowExec env p.1 tx.execer = true) ∧
+      r = (if (loadDriver env tx.execer).isSome then
+             { ty := 2, kv := feelog.kv ++ kv, logs := feelog.logs ++ [.user] } else feelog) ∧
+      (isExecLocalSameTime env tx.execer = true → ∃ stL obsL, execLocalTx stE tx obsE = .ok stL obsL) := by
+  have fin : ∀ st kv b o, finishOk env st feelog kv b o = .ok r st' obs →
+      r = (if b then { ty := 2, kv := feelog.kv ++ kv, logs := feelog.logs ++ [.user] } else feelog) := by
+    intro st kv b o hh
+    unfold finishOk at hh
+    injection hh with hh _ _
+    exact hh.symm
+  unfold execTxOne at h
+  rcases hr : execPhase env st.startTx tx with ⟨st1, ret, obs1⟩
+  rw [hr] at h
+  cases ret with
+  | err => cases h
+  | panic => cases h
+  | ok kv =>
+    simp only at h
+    split at h
+    · cases h
+    · rename_i hck
+      split at h
+      · cases h
+      · rename_i hany
+        have hck' : C12.checkKV st1.sdb.keys (kv.map (·.1)) = true := by simpa using hck
+        have hall : ∀ p ∈ kv, isAllowExec env p.1 tx.execer = true := by
+          intro p hp
+          have := hany
+          simp only [List.any_eq_true, Bool.not_eq_true', not_exists, not_and, Bool.not_eq_false] at this
+          exact this p hp
+        split at h
+        · rename_i hsame
+          cases hlr : execLocalTx st1 tx obs1 with
+          | blockPanic => rw [hlr] at h; cases h
+          | err e st2 obs2 => rw [hlr] at h; cases h
+          | ok st2 obs2 =>
+            rw [hlr] at h
+            simp only at h
+            exact ⟨st1, kv, obs1, rfl, hck', hall, fin _ _ _ _ h, fun _ => ⟨_, _, hlr⟩⟩
+        · rename_i hsame
+          exact ⟨st1, kv, obs1, rfl, hck', hall, fin _ _ _ _ h, fun hs => absurd hs hsame⟩
+
+/-- a successful `execLocalTx`: every declared local key passed `isAllowLocalKey`. -/
+theorem execLocalTx_ok_keys (st : St) (tx : Tx) (obs : List Obs) (st' : St) (obs' : List Obs)
+    (h : execLocalTx st tx obs = .ok st' obs') :
+    ∃ decl, (runLocalOps tx.localOps st [] obs).2.1 = .ok decl ∧
+      ∀ kv ∈ decl, C12.isAllowLocalKey tx.execer kv.1 = none := by
+  unfold execLocalTx at h
+  rcases hr : runLocalOps tx.localOps st [] obs with ⟨st1, ret, obs1⟩
+  rw [hr] at h
+  cases ret with
+  | panic => cases h
+  | err => cases h
+  | ok decl =>
+    refine ⟨decl, rfl, ?_⟩
+    simp only at h
+    split at h
+    · split at h
+      · cases h
+      · split at h
+        · cases h
+        · rename_i hany
+          intro kv hkv
+          simp only [List.any_eq_true, not_exists, not_and, Bool.not_eq_true, Option.isSome_eq_false_iff,
+            Option.isNone_iff_eq_none] at hany
+          exact hany kv hkv
+    · rename_i hempty
+      intro kv hkv
+      simp only [Bool.not_eq_true', Bool.not_eq_false, List.isEmpty_iff] at hempty
+      rw [hempty] at hkv; cases hkv
+
 end C11
